@@ -159,6 +159,37 @@ def _bind(call, helper, is_method):
     return mapping
 
 
+def _decision_expr(stmts):
+    """Boolean-valued expression equivalent to a side-effect-free body made only of
+    `if c: <decision list>` / `return <expr>` statements, or None."""
+    stmts = [s_ for s_ in stmts if not (isinstance(s_, ast.Expr) and isinstance(s_.value, ast.Constant))]
+    if not stmts:
+        return None
+    first = stmts[0]
+    if isinstance(first, ast.Return):
+        return first.value if first.value is not None else ast.Constant(value=None)
+    if isinstance(first, ast.If):
+        a = _decision_expr(first.body)
+        rest = list(first.orelse) + list(stmts[1:]) if first.orelse else list(stmts[1:])
+        b = _decision_expr(first.orelse) if first.orelse and _all_return(first.orelse) else _decision_expr(rest)
+        if a is None or b is None or not _all_return(first.body):
+            return None
+        return ast.IfExp(test=first.test, body=a, orelse=b)
+    return None
+
+
+def _all_return(stmts):
+    """Every path through stmts ends in a return."""
+    if not stmts:
+        return False
+    last = stmts[-1]
+    if isinstance(last, ast.Return):
+        return True
+    if isinstance(last, ast.If) and last.orelse:
+        return _all_return(last.body) and _all_return(last.orelse)
+    return False
+
+
 def _inlinable(helper):
     if isinstance(helper, ast.AsyncFunctionDef):
         return False
@@ -347,6 +378,7 @@ def inline_module(tree, modname):
                         i += 1
                 rewrite(caller.body)
                 # helpers that are a single `return <expr>` are also substituted in expression position
+                is_method_scope = cname is not None
                 class ExprInl(ast.NodeTransformer):
                     def visit_FunctionDef(self, node):
                         if node is not caller:
@@ -365,12 +397,20 @@ def inline_module(tree, modname):
                         if h is None:
                             return node
                         hb = [s_ for s_ in h.body if not (isinstance(s_, ast.Expr) and isinstance(s_.value, ast.Constant))]
-                        if len(hb) != 1 or not isinstance(hb[0], ast.Return) or hb[0].value is None:
-                            return node
-                        mapping = _bind(node, h, cname is not None)
+                        if len(hb) == 1 and isinstance(hb[0], ast.Return) and hb[0].value is not None:
+                            expr = hb[0].value
+                        else:
+                            # a side-effect-free decision list (`if c: return A` ... `return B`) is a conditional expression
+                            if any(isinstance(x, (ast.Assign, ast.AugAssign, ast.Expr, ast.For, ast.While, ast.Try, ast.With, ast.Raise)) for s_ in hb for x in ast.walk(s_)
+                                   if not (isinstance(x, ast.Expr) and isinstance(x.value, ast.Constant))):
+                                return node
+                            expr = _decision_expr(hb)
+                            if expr is None:
+                                return node
+                        mapping = _bind(node, h, is_method_scope)
                         if mapping is None or not all(_simple(v) for v in mapping.values()):
                             return node
-                        new = _Subst(mapping, {}).visit(copy.deepcopy(hb[0].value))
+                        new = _Subst(mapping, {}).visit(copy.deepcopy(expr))
                         for n_ in ast.walk(new):
                             n_.lineno = getattr(node, "lineno", 1)
                             n_.col_offset = getattr(node, "col_offset", 0)
@@ -404,4 +444,198 @@ def inline_module(tree, modname):
                 if f in obody:
                     obody.remove(f)
                     dropped.setdefault(ocname, set()).add(h)
+    # closures: a private helper defined inside a function and used by the functions nested next to it
+    for outer in [n for n in ast.walk(tree) if isinstance(n, (ast.FunctionDef, ast.AsyncFunctionDef))]:
+        local_helpers = {}
+        for f in outer.body:
+            if isinstance(f, ast.FunctionDef) and f.name.startswith("_") and not f.name.startswith("__") and not f.decorator_list and not f.args.args \
+                    and not _has(f, (ast.Yield, ast.YieldFrom, ast.Await, ast.Nonlocal, ast.Global)):
+                hb = [s_ for s_ in f.body if not (isinstance(s_, ast.Expr) and isinstance(s_.value, ast.Constant))]
+                pure = not any(isinstance(x, (ast.Assign, ast.AugAssign, ast.For, ast.While, ast.Try, ast.With, ast.Raise, ast.Delete)) for s_ in hb for x in ast.walk(s_))
+                pure = pure and not any(isinstance(s_, ast.Expr) for s_ in hb)
+                expr = _decision_expr(hb) if pure else None
+                if expr is not None:
+                    local_helpers[f.name] = (f, expr)
+        if not local_helpers:
+            continue
+        used = dict((h, 0) for h in local_helpers)
+
+        class LocalInl(ast.NodeTransformer):
+            def visit_Call(self, node):
+                self.generic_visit(node)
+                if isinstance(node.func, ast.Name) and node.func.id in local_helpers and not node.args and not node.keywords:
+                    f, expr = local_helpers[node.func.id]
+                    new_ = copy.deepcopy(expr)
+                    for n_ in ast.walk(new_):
+                        n_.lineno = getattr(node, "lineno", 1)
+                        n_.col_offset = getattr(node, "col_offset", 0)
+                        n_.end_lineno = getattr(node, "end_lineno", n_.lineno)
+                        n_.end_col_offset = getattr(node, "end_col_offset", 0)
+                    used[node.func.id] += 1
+                    return new_
+                return node
+        for st in outer.body:
+            if isinstance(st, ast.FunctionDef) and st.name in local_helpers:
+                continue
+            LocalInl().visit(st)
+        for h, (f, expr) in local_helpers.items():
+            others = sum(1 for n in ast.walk(outer) if isinstance(n, ast.Name) and n.id == h and isinstance(n.ctx, ast.Load))
+            if used[h] > 0 and others == 0:
+                outer.body.remove(f)
     return dropped
+
+
+# ------------------------------------------------------------------------------------------
+# normalisation: tuple-unpacking assignments and stable local aliases
+# ------------------------------------------------------------------------------------------
+
+def _chain_root(e):
+    while isinstance(e, ast.Attribute):
+        e = e.value
+    return e.id if isinstance(e, ast.Name) else None
+
+
+def _is_chain(e):
+    if isinstance(e, ast.Name):
+        return True
+    if isinstance(e, ast.Attribute):
+        return _is_chain(e.value)
+    return False
+
+
+def _split_tuple_assigns(fn):
+    """`a, b = x, y`  ->  `a = x; b = y` when no later value mentions an earlier target."""
+    def keys(t):
+        try:
+            return [ast.unparse(t)]
+        except Exception:
+            return ["?"]
+
+    def rewrite(stmts):
+        i = 0
+        while i < len(stmts):
+            s = stmts[i]
+            if isinstance(s, ast.Assign) and len(s.targets) == 1 and isinstance(s.targets[0], (ast.Tuple, ast.List)) \
+                    and isinstance(s.value, (ast.Tuple, ast.List)) and len(s.targets[0].elts) == len(s.value.elts) \
+                    and not any(isinstance(e, ast.Starred) for e in s.targets[0].elts + s.value.elts):
+                tg, vals = s.targets[0].elts, s.value.elts
+                safe = True
+                for a in range(len(tg)):
+                    ka = keys(tg[a])[0]
+                    root = ka.split(".")[0].split("[")[0]
+                    for b in range(a + 1, len(vals)):
+                        names = set(n.id for n in ast.walk(vals[b]) if isinstance(n, ast.Name))
+                        if root in names and (isinstance(tg[a], ast.Name) or ka in ast.unparse(vals[b])):
+                            safe = False
+                if safe:
+                    new = []
+                    for t, v in zip(tg, vals):
+                        a_ = ast.Assign(targets=[t], value=v)
+                        ast.copy_location(a_, s)
+                        a_.end_lineno = getattr(s, "end_lineno", s.lineno)
+                        a_.end_col_offset = getattr(s, "end_col_offset", 0)
+                        new.append(a_)
+                    stmts[i:i + 1] = new
+                    i += len(new)
+                    continue
+            for fld in ("body", "orelse", "finalbody"):
+                sub = getattr(s, fld, None)
+                if isinstance(sub, list) and not isinstance(s, (ast.FunctionDef, ast.AsyncFunctionDef, ast.ClassDef)):
+                    rewrite(sub)
+            for h in getattr(s, "handlers", []) or []:
+                rewrite(h.body)
+            i += 1
+    rewrite(fn.body)
+
+
+def _propagate_aliases(fn):
+    """A local bound exactly once to a name / attribute chain that is not rooted at self and whose
+    root is itself stable is replaced by that chain at its uses (`send = gen.send`,
+    `batches = _state.batches`).  Chains rooted at self are NOT propagated: `old = self.field` is a
+    snapshot, and the rules about save/restore need to see it as one."""
+    stores = {}
+    for n in ast.walk(fn):
+        if isinstance(n, ast.Name) and isinstance(n.ctx, (ast.Store, ast.Del)):
+            stores[n.id] = stores.get(n.id, 0) + 1
+        elif isinstance(n, ast.ExceptHandler) and n.name:
+            stores[n.name] = stores.get(n.name, 0) + 2
+        elif isinstance(n, (ast.FunctionDef, ast.AsyncFunctionDef, ast.ClassDef)) and n is not fn:
+            stores[n.name] = stores.get(n.name, 0) + 2
+        elif isinstance(n, (ast.Global, ast.Nonlocal)):
+            for x in n.names:
+                stores[x] = stores.get(x, 0) + 2
+    params = set(a.arg for a in fn.args.posonlyargs + fn.args.args + fn.args.kwonlyargs)
+    if fn.args.vararg:
+        params.add(fn.args.vararg.arg)
+    if fn.args.kwarg:
+        params.add(fn.args.kwarg.arg)
+    aliases = {}
+    alias_stmts = []
+
+    def scan(stmts):
+        for s in stmts:
+            if isinstance(s, ast.Assign) and len(s.targets) == 1 and isinstance(s.targets[0], ast.Name) and isinstance(s.value, ast.Attribute) \
+                    and _is_chain(s.value):
+                nm = s.targets[0].id
+                root = _chain_root(s.value)
+                if stores.get(nm, 0) == 1 and nm not in params and root not in ("self", "cls") and root != nm \
+                        and (stores.get(root, 0) <= 1):
+                    # attributes stored through the same chain anywhere in the function make the alias a snapshot
+                    attrs = set()
+                    e = s.value
+                    while isinstance(e, ast.Attribute):
+                        attrs.add(e.attr)
+                        e = e.value
+                    stored_attrs = set(n.attr for n in ast.walk(fn) if isinstance(n, ast.Attribute) and isinstance(n.ctx, (ast.Store, ast.Del)))
+                    if not (attrs & stored_attrs):
+                        aliases[nm] = s.value
+                        alias_stmts.append(s)
+            for fld in ("body", "orelse", "finalbody"):
+                sub = getattr(s, fld, None)
+                if isinstance(sub, list) and not isinstance(s, (ast.FunctionDef, ast.AsyncFunctionDef, ast.ClassDef)):
+                    scan(sub)
+            for h in getattr(s, "handlers", []) or []:
+                scan(h.body)
+    scan(fn.body)
+    # only aliases that are used exclusively as a call target or as the receiver of an attribute / subscript access are
+    # replaced: an alias that is compared, returned, stored or passed on is a value in its own right
+    parents = {}
+    for n in ast.walk(fn):
+        for c in ast.iter_child_nodes(n):
+            parents[id(c)] = n
+    for nm in list(aliases):
+        ok = True
+        for n in ast.walk(fn):
+            if isinstance(n, ast.Name) and n.id == nm and isinstance(n.ctx, ast.Load):
+                par = parents.get(id(n))
+                if isinstance(par, ast.Call) and par.func is n:
+                    continue
+                if isinstance(par, ast.Attribute) and par.value is n:
+                    continue
+                if isinstance(par, ast.Subscript) and par.value is n:
+                    continue
+                ok = False
+        if not ok:
+            del aliases[nm]
+    if not aliases:
+        return
+
+    class Rep(ast.NodeTransformer):
+        def visit_Name(self, node):
+            if isinstance(node.ctx, ast.Load) and node.id in aliases:
+                return ast.copy_location(copy.deepcopy(aliases[node.id]), node)
+            return node
+    Rep().visit(fn)
+    for n in ast.walk(fn):
+        if not hasattr(n, "lineno") and isinstance(n, (ast.expr, ast.stmt)):
+            n.lineno = fn.lineno
+            n.col_offset = 0
+            n.end_lineno = fn.lineno
+            n.end_col_offset = 0
+
+
+def normalize_module(tree):
+    for fn in [n for n in ast.walk(tree) if isinstance(n, (ast.FunctionDef, ast.AsyncFunctionDef))]:
+        _split_tuple_assigns(fn)
+    for fn in [n for n in ast.walk(tree) if isinstance(n, (ast.FunctionDef, ast.AsyncFunctionDef))]:
+        _propagate_aliases(fn)
